@@ -42,18 +42,21 @@ def handleDers : List String → Option String
   | ["cders32", rat, p, us, ps, u, ord] => do
       let p ← p.toNat?; let U ← parseList us; let P ← parsePts ps; let u ← parseRat u; let ord ← ord.toNat?
       if !(okKv p P.length U && inDom p P.length U u) then return "ERR"
+      if cWZero (rat == "1") p U P u then return "ERR"
       return showPts (curveDers1 (rat == "1") p U P u ord)
   | ["sders36", rat, pu, pv, uus, uvs, su, sv, ps, u, v, ord] => do
       let pu ← pu.toNat?; let pv ← pv.toNat?; let Uu ← parseList uus; let Uv ← parseList uvs
       let su ← su.toNat?; let sv ← sv.toNat?; let P ← parsePts ps; let u ← parseRat u; let v ← parseRat v
       let ord ← ord.toNat?
       if !(okKv pu su Uu && okKv pv sv Uv && inDom pu su Uu u && inDom pv sv Uv v && P.length == su * sv) then return "ERR"
+      if sWZero (rat == "1") pu pv Uu Uv su sv P u v then return "ERR"
       return showPts2 (surfDers1 (rat == "1") pu pv Uu Uv su sv P u v ord)
   -- the default evaluators as coded on the span(s) the REPAIRED search finds (`curveDersA32R`, `surfaceDersA36R`,
   -- Model/SpanRGrid.lean): no empty-span guard
   | ["cders32r", rat, p, us, ps, u, ord] => do
       let p ← p.toNat?; let U ← parseList us; let P ← parsePts ps; let u ← parseRat u; let ord ← ord.toNat?
       if !(okKv p P.length U && inDomR p P.length U u) then return "ERR"
+      if cWZeroR (rat == "1") p U P u then return "ERR"
       let CK := curveDersA32R p (fn U) P u ord
       return showPts (if rat == "1" then ratCurveDers CK else CK)
   | ["sders36r", rat, pu, pv, uus, uvs, su, sv, ps, u, v, ord] => do
@@ -61,6 +64,7 @@ def handleDers : List String → Option String
       let su ← su.toNat?; let sv ← sv.toNat?; let P ← parsePts ps; let u ← parseRat u; let v ← parseRat v
       let ord ← ord.toNat?
       if !(okKv pu su Uu && okKv pv sv Uv && inDomR pu su Uu u && inDomR pv sv Uv v && P.length == su * sv) then return "ERR"
+      if sWZeroR (rat == "1") pu pv Uu Uv su sv P u v then return "ERR"
       let S := surfaceDersA36R pu pv (fn Uu) (fn Uv) su sv P u v ord
       return showPts2 (if rat == "1" then ratSurfaceDers S ord else S)
   | ["sders38", pu, pv, uus, uvs, su, sv, ps, u, v, ord] => do
@@ -100,6 +104,7 @@ def handleDers : List String → Option String
   | ["tanc", rat, p, us, ps, params] => do
       let p ← p.toNat?; let U ← parseList us; let P ← parsePts ps; let params ← parseList params
       if !(okKv p P.length U) || params.any (fun u => !(inDom p P.length U u)) then return "ERR"
+      if params.any (fun u => cWZero (rat == "1") p U P u) then return "ERR"
       return "|".intercalate (params.map (fun u =>
         let t := tangentCurve (curveDers1 (rat == "1") p U P u 1)
         s!"{showList t.1};{showList t.2}"))
@@ -108,6 +113,7 @@ def handleDers : List String → Option String
       let su ← su.toNat?; let sv ← sv.toNat?; let P ← parsePts ps; let us ← parseList us; let vs ← parseList vs
       if !(okKv pu su Uu && okKv pv sv Uv && P.length == su * sv) || us.length != vs.length
          || (us.zip vs).any (fun x => !(inDom pu su Uu x.1 && inDom pv sv Uv x.2)) then return "ERR"
+      if (us.zip vs).any (fun x => sWZero (rat == "1") pu pv Uu Uv su sv P x.1 x.2) then return "ERR"
       return "|".intercalate ((us.zip vs).map (fun x =>
         let t := tangentSurface (surfDers1 (rat == "1") pu pv Uu Uv su sv P x.1 x.2 1)
         s!"{showList t.1};{showList t.2.1};{showList t.2.2}"))
@@ -116,6 +122,7 @@ def handleDers : List String → Option String
       let su ← su.toNat?; let sv ← sv.toNat?; let P ← parsePts ps; let us ← parseList us; let vs ← parseList vs
       if !(okKv pu su Uu && okKv pv sv Uv && P.length == su * sv) || us.length != vs.length
          || (us.zip vs).any (fun x => !(inDom pu su Uu x.1 && inDom pv sv Uv x.2)) then return "ERR"
+      if (us.zip vs).any (fun x => sWZero (rat == "1") pu pv Uu Uv su sv P x.1 x.2) then return "ERR"
       let rs := (us.zip vs).map (fun x => normalSurface (surfDers1 (rat == "1") pu pv Uu Uv su sv P x.1 x.2 1))
       if rs.any Option.isNone then return "ERR"
       return "|".intercalate (rs.map (fun r => match r with
@@ -127,6 +134,7 @@ def handleDers : List String → Option String
       let mags ← parseList mags
       if !(okKv p P.length U) || params.any (fun u => !(inDom p P.length U u)) || mags.length != params.length then
         return "ERR"
+      if params.any (fun u => cWZero (rat == "1") p U P u) then return "ERR"
       let ds := (params.map (fun u => curveDers1 (rat == "1") p U P u 1)).zip mags
       if ds.any (fun x => !(magOk (tangentCurve x.1).2 x.2)) then return "BADMAG"
       let rs := ds.map (fun x => tangentCurveN x.1 x.2)
@@ -141,6 +149,7 @@ def handleDers : List String → Option String
       if !(okKv pu su Uu && okKv pv sv Uv && P.length == su * sv) || us.length != vs.length
          || magsU.length != us.length || magsV.length != us.length
          || (us.zip vs).any (fun x => !(inDom pu su Uu x.1 && inDom pv sv Uv x.2)) then return "ERR"
+      if (us.zip vs).any (fun x => sWZero (rat == "1") pu pv Uu Uv su sv P x.1 x.2) then return "ERR"
       let ds := ((us.zip vs).map (fun x => surfDers1 (rat == "1") pu pv Uu Uv su sv P x.1 x.2 1)).zip (magsU.zip magsV)
       if ds.any (fun x => !(magOk (tangentSurface x.1).2.1 x.2.1 && magOk (tangentSurface x.1).2.2 x.2.2)) then
         return "BADMAG"
@@ -156,6 +165,7 @@ def handleDers : List String → Option String
       if !(okKv pu su Uu && okKv pv sv Uv && P.length == su * sv) || us.length != vs.length
          || mags.length != us.length
          || (us.zip vs).any (fun x => !(inDom pu su Uu x.1 && inDom pv sv Uv x.2)) then return "ERR"
+      if (us.zip vs).any (fun x => sWZero (rat == "1") pu pv Uu Uv su sv P x.1 x.2) then return "ERR"
       let ds := ((us.zip vs).map (fun x => surfDers1 (rat == "1") pu pv Uu Uv su sv P x.1 x.2 1)).zip mags
       if ds.any (fun x => (normalSurface x.1).isNone) then return "ERR"
       if ds.any (fun x => match normalSurface x.1 with
